@@ -18,9 +18,11 @@ import (
 
 type byLen []string
 
-func (b byLen) Len() int           { return len(b) }
-func (b byLen) Less(i, j int) bool { return len(b[i]) < len(b[j]) || (len(b[i]) == len(b[j]) && b[i] < b[j]) }
-func (b byLen) Swap(i, j int)      { b[i], b[j] = b[j], b[i] }
+func (b byLen) Len() int { return len(b) }
+func (b byLen) Less(i, j int) bool {
+	return len(b[i]) < len(b[j]) || (len(b[i]) == len(b[j]) && b[i] < b[j])
+}
+func (b byLen) Swap(i, j int) { b[i], b[j] = b[j], b[i] }
 
 type temp struct {
 	Deg int
